@@ -71,6 +71,31 @@ func (r *vCrashReader) Read(p []byte) (int, error) {
 	return n, nil
 }
 
+// vCrashProxy hands out one scripted stream (the back end's answer to the read-through that is killed).
+type vCrashProxy struct {
+	mu   sync.Mutex
+	rd   io.Reader
+	size int64
+}
+
+func (p *vCrashProxy) Put(ctx context.Context, kind cache.EntryKind, hash string, l int64, s int64, rc io.ReadCloser) {
+	_, _ = io.Copy(io.Discard, rc)
+	_ = rc.Close()
+}
+func (p *vCrashProxy) Get(ctx context.Context, kind cache.EntryKind, hash string, size int64) (io.ReadCloser, int64, error) {
+	p.mu.Lock()
+	defer p.mu.Unlock()
+	if p.rd == nil {
+		return nil, -1, nil
+	}
+	rd := p.rd
+	p.rd = nil
+	return io.NopCloser(rd), p.size, nil
+}
+func (p *vCrashProxy) Contains(ctx context.Context, kind cache.EntryKind, hash string, size int64) (bool, int64) {
+	return false, -1
+}
+
 var vHookByKey sync.Map // lookup key -> func(point string)
 
 func vInstallKeyHook() {
@@ -94,7 +119,7 @@ func TestVerifCrash(t *testing.T) {
 	defer func() { VerifHook = nil }()
 	zi, _ := zstdimpl.Get("go")
 	n := vScale(40, 400)
-	rec.Set("rule", "case = a cache with 0..5 acknowledged entries, then one upload (new key or overwrite; CAS/AC/RAW; sizes 1 B .. 2.5 MiB crossing the 1 MiB chunk size) killed at: 0 bytes, mid-stream, chunk boundaries, last byte, EOF, file complete but not indexed, acknowledged; every image restarted in both storage modes; reads with known and unknown size, compressed and not; then the upload is repeated")
+	rec.Set("rule", "case = a cache with 0..5 acknowledged entries, then one upload (new key or overwrite; CAS/AC/RAW; one in four a read-through from the back end instead; sizes 1 B .. 2.5 MiB crossing the 1 MiB chunk size) killed at: 0 bytes, mid-stream, chunk boundaries, last byte, EOF, file complete but not indexed, acknowledged; every image restarted in both storage modes; reads with known and unknown size, compressed and not; then the upload is repeated")
 	vParallel(n, 8, func(ci int) {
 		cs := rec.NewCase()
 		defer cs.Done()
@@ -103,7 +128,8 @@ func TestVerifCrash(t *testing.T) {
 		dir := vTempDir(t)
 		defer os.RemoveAll(dir)
 		modeA := []string{"zstd", "uncompressed"}[rng.Intn(2)]
-		a := vNewDisk(t, dir, 1<<30, WithStorageMode(modeA))
+		cpx := &vCrashProxy{}
+		a := vNewDisk(t, dir, 1<<30, WithStorageMode(modeA), WithProxyBackend(cpx))
 		adir := a.dir
 		// ---- acknowledged entries
 		var acked []vAcked
@@ -178,22 +204,75 @@ func TestVerifCrash(t *testing.T) {
 		}
 		lk := cache.LookupKey(kind, hash)
 		vHookByKey.Store(lk, func(point string) {
-			if point == "put.beforeCommit" {
+			if point == "put.beforeCommit" || point == "proxyget.beforeCommit" {
 				images = append(images, vTakeImage(adir, "file-complete-not-indexed"))
 			}
 		})
+		// one case in four: the operation that is killed is not an upload but a read-through — the entry
+		// is fetched from the back end (in the form the back end holds it) and written to the cache
+		fetch := old == nil && rng.Pct(25)
+		if fetch {
+			stored := data
+			if kind == cache.CAS && modeA == "zstd" {
+				ddir := vTempDir(t)
+				donor := vNewDisk(t, ddir, 1<<30, WithStorageMode(modeA))
+				if err := vPut(donor, kind, hash, data); err != nil {
+					t.Errorf("donor put: %v", err)
+					return
+				}
+				fs := vListing(ddir)
+				if len(fs) != 1 {
+					t.Errorf("donor: %d files", len(fs))
+					return
+				}
+				stored, _ = os.ReadFile(filepath.Join(ddir, fs[0].Name))
+				_ = os.RemoveAll(ddir)
+			}
+			var fcuts []int
+			for _, c := range []int{0, len(stored) / 2, len(stored) - 1, 4096, 65536, 1 << 20} {
+				if c >= 0 && c < len(stored) {
+					fcuts = append(fcuts, c)
+				}
+			}
+			sort.Ints(fcuts)
+			cpx.mu.Lock()
+			cpx.rd, cpx.size = &vCrashReader{data: stored, cuts: fcuts, dir: adir, images: &images}, int64(size)
+			cpx.mu.Unlock()
+			sz := int64(size)
+			if rng.Pct(40) {
+				sz = -1
+			}
+			rc, _, gerr := a.Get(ctx, kind, hash, sz, 0)
+			vHookByKey.Delete(lk)
+			if gerr != nil || rc == nil {
+				t.Errorf("read-through failed: %v", gerr)
+				return
+			}
+			got, _ := io.ReadAll(rc)
+			_ = rc.Close()
+			if !bytes.Equal(got, data) {
+				cs.Violation("C12", "crash.readthrough-content", "the read-through itself returned other bytes", cs.CaseOps())
+			}
+			images = append(images, vTakeImage(adir, "acknowledged"))
+			cs.Count(fmt.Sprintf("fetch.%s.%s", kind.String(), modeA))
+		}
 		// a quarter of the CAS uploads deliver bytes that do not match the digest: Put must refuse them,
 		// and a kill before it has returned must not leave anything servable under that digest
-		bad := kind == cache.CAS && old == nil && rng.Pct(25)
+		bad := kind == cache.CAS && old == nil && !fetch && rng.Pct(25)
 		sent := data
 		if bad {
 			sent = append([]byte(nil), data...)
 			sent[len(sent)-1] ^= 0x5a
 		}
-		rd := &vCrashReader{data: sent, cuts: cuts, dir: adir, images: &images}
-		err := a.Put(ctx, kind, hash, int64(size), rd)
-		vHookByKey.Delete(lk)
-		if bad {
+		var err error
+		if !fetch {
+			rd := &vCrashReader{data: sent, cuts: cuts, dir: adir, images: &images}
+			err = a.Put(ctx, kind, hash, int64(size), rd)
+			vHookByKey.Delete(lk)
+		}
+		if fetch {
+			// images were taken above
+		} else if bad {
 			if err == nil {
 				cs.Violation("C01", "crash.bad-upload-accepted", "an upload whose bytes do not match the digest was acknowledged", cs.CaseOps())
 			}
@@ -335,7 +414,16 @@ func TestVerifCrash(t *testing.T) {
 					if v.known {
 						vs = "size-known"
 					}
-					cs.Violation("C08", fmt.Sprintf("crash.torn-served.%sfile.%s", stored, vs),
+					// what kind of image: the full-length file of an upload that was about to be refused, or a
+					// file cut short / still being written
+					cls := "partial-write"
+					if bad && (img.label == "at-eof" || img.label == "file-complete-not-indexed") {
+						cls = "rejected-upload-complete"
+					}
+					if fetch {
+						cls = "read-through." + cls
+					}
+					cs.Violation("C08", fmt.Sprintf("crash.torn-served.%sfile.%s.%s", stored, vs, cls),
 						fmt.Sprintf("image %s: %s read (zstd=%v) of the upload that was in flight returned %d bytes that are neither absent nor a complete upload (%d bytes)", sig, vs, v.z, len(got), len(data)), cs.CaseOps())
 				}
 				if old != nil && res != "hit" && img.label != "acknowledged" {
